@@ -127,6 +127,41 @@ func NewAllocator(options ...AllocatorOption) (*Allocator, error) {
 	return newAllocator(options...)
 }
 
+// Clone returns an independent copy of the allocator with identical nodes,
+// zones and allocations. Outstanding offers of the original are not valid
+// for the clone.
+func (a *Allocator) Clone() *Allocator {
+	c := &Allocator{
+		nodes:    a.nodes,
+		requests: make(map[string]*Request, len(a.requests)),
+		zones:    make(map[NodeMask]*Zone, len(a.zones)),
+		users:    make(map[string]NodeMask, len(a.users)),
+		masks:    a.masks,
+		version:  a.version + 1,
+		custom:   a.custom,
+	}
+	for id, req := range a.requests {
+		r := *req
+		c.requests[id] = &r
+	}
+	for nodes, zone := range a.zones {
+		z := &Zone{
+			nodes:    zone.nodes,
+			types:    zone.types,
+			capacity: zone.capacity,
+			users:    make(map[string]*Request, len(zone.users)),
+		}
+		for id := range zone.users {
+			z.users[id] = c.requests[id]
+		}
+		c.zones[nodes] = z
+	}
+	for id, zone := range a.users {
+		c.users[id] = zone
+	}
+	return c
+}
+
 // Masks returns the memory node and type mask cache for the allocator.
 func (a *Allocator) Masks() *MaskCache {
 	return a.masks
